@@ -650,6 +650,18 @@ func (g *fileGen) field(m *ir.Message, names *nameSet, embedded map[string]bool,
 				}
 			}
 		}
+		if !reused && fl.Kind == "bool" && fl.Card == ir.Single && !inOneof && fl.CastType == "" && fl.CustomType == "" && rapid.IntRange(0, 2).Draw(t, "activename") == 0 {
+			// "active" is the name of the placeholder attribute of an empty message (a computed bool): a real
+			// bool field of that name must still be converted
+			for _, cand := range []string{"active", "Active"} {
+				if names.okField(cand) {
+					fl.Name = cand
+					names.addField(cand)
+					reused = true
+					break
+				}
+			}
+		}
 		if !reused {
 			fl.Name = names.fresh(t, "fname")
 			if fl.Kind == ir.KMessage {
